@@ -81,8 +81,8 @@ func (r Registry) LookupInterface(name string) (*types.Interface, *types.TypePar
 // MethodScope returns a new MethodScope. The names reserved are
 // identifiers the method must still be able to refer to besides the
 // ones its signature and body mention (the type parameters of the mock).
-func (r *Registry) MethodScope(reserved ...string) *MethodScope {
-	scope := r.TypeParamScope()
+func (r *Registry) MethodScope(reserved ...*Var) *MethodScope {
+	scope := r.newScope()
 	scope.reserved = reserved
 	r.scopes = append(r.scopes, scope)
 	return scope
@@ -90,6 +90,13 @@ func (r *Registry) MethodScope(reserved ...string) *MethodScope {
 
 // TypeParamScope returns a scope for the type parameters of a mock.
 func (r *Registry) TypeParamScope() *MethodScope {
+	scope := r.newScope()
+	scope.typeParams = true
+	r.scopes = append(r.scopes, scope)
+	return scope
+}
+
+func (r *Registry) newScope() *MethodScope {
 	return &MethodScope{
 		registry:   r,
 		moqPkgPath: r.moqPkgPath,
@@ -103,8 +110,16 @@ func (r *Registry) TypeParamScope() *MethodScope {
 // imports can rename a package qualifier after the variables of earlier
 // methods were named.
 func (r *Registry) ResolveShadowing() {
+	// Type parameters first: the methods reserve their final names.
 	for _, scope := range r.scopes {
-		scope.resolveShadowing()
+		if scope.typeParams {
+			scope.resolveTypeParamShadowing()
+		}
+	}
+	for _, scope := range r.scopes {
+		if !scope.typeParams {
+			scope.resolveShadowing()
+		}
 	}
 }
 
